@@ -30,7 +30,10 @@ def knownRows : List (OpK × Kind × Cat) := [
   (.construct, .oneOf, .coll), (.construct, .oneOf, .inline), (.construct, .oneOf, .wrap),
   (.construct, .allOf, .coll), (.construct, .allOf, .inline), (.construct, .allOf, .wrap),
   (.setattr, .oneOf, .coll), (.setattr, .oneOf, .inline), (.setattr, .oneOf, .wrap),
-  (.setattr, .allOf, .coll), (.setattr, .allOf, .inline), (.setattr, .allOf, .wrap)]
+  (.setattr, .allOf, .coll), (.setattr, .allOf, .inline), (.setattr, .allOf, .wrap),
+  -- structure_to_schema puts a field's non-callable mutable default (keyword form `Array(..., default=[1, 2])`)
+  -- into the returned schema as it is
+  (.toSchema, .default, .any)]
 
 /-- rows that were findings of the first round and were repaired in typedpy: the `return value` short cuts
     of Array/Deque/Map.serialize (commit 5e8a8ad: fast serialization and `<field>.serialize` handed out the
